@@ -48,3 +48,14 @@ chk("C12", "model-based round-trip testing: generated managers covering every no
     "invariant, own distinct containers and refs; follow-up assignments applied to both, or to one side only, are compared with one pull "
     "model per side after every step (identical behaviour and independence).",
     TRUST + " Only expression tasks over picklable harness containers.", "DESIGN.md 4/C12")
+
+chk("C11", "round-trip testing of generated expression programs (eval(str(e))) and model-based differential testing of dump/load and copy_expr_from",
+    "Generated terms over every node class with adversarial item keys (quotes, brackets, keys containing container labels or printed "
+    "paths, ints): eval(str(e)) in a namespace of the container labels must rebuild a ref that is ==, hashes equally, has the same "
+    "operand-level structure, dependency set and value (two valuations, compared with mirrored Python). Generated histories: "
+    "load(dump()) (also via JSON) into a fresh manager gives the same definitions, passes verify()/index invariant, answers queries "
+    "identically and follows the pull model under follow-up assignments. copy_expr_from in plain / overwrite=False / label-rename / "
+    "nested-rebinding modes yields exactly the model's rebound definitions, leaves the source untouched and follows the model.",
+    TRUST + " Known findings K2 (math.floor/ceil/trunc print as bare names) and K3 (_eq/_neq print as ==/!=) are excluded by "
+    "construction and replayed as exemplars; nested rebinding puts the copied tasks into C01's K1 class, so values are compared "
+    "only for the other modes.", "DESIGN.md 4/C11")
